@@ -231,7 +231,7 @@ def run_path(I, c, fn, module, res):
                 else:
                     g = I.as_goal(I.equal(slf.attrs[k], want))
                 ctx.oblige(I.oname('sets[%s]' % k, None), g, 'post')
-            for cls, cond in c.raises.items():
+            for cls, cond in list(c.raises.items()) + list(c.own_raises.items()):
                 g = I.as_goal(I.pure_eval(cond, old))
                 ctx.oblige(I.oname('raises-iff[%s]' % cls, None), z3.Not(g), 'raises')
             # frame: state reachable from the parameters that differs from the entry state must be
@@ -257,7 +257,15 @@ def run_path(I, c, fn, module, res):
             e = outcome[1]
             res.exc_exits[e.cls] = res.exc_exits.get(e.cls, 0) + 1
             matched = False
-            for cls, cond in c.raises.items():
+            from_callee = str(getattr(e, 'why', '') or '').startswith('from ')
+            for cls, cond in c.own_raises.items():
+                # raised by this function's own statements (a contracted callee's exceptions fall under may_raise)
+                if exc_subclass(e.cls, cls) and not from_callee:
+                    matched = True
+                    g = I.as_goal(I.pure_eval(cond, old))
+                    ctx.oblige(I.oname('raises-only-if[%s]' % cls, e.line), g, 'raises', e.line)
+                    break
+            for cls, cond in ({} if matched else c.raises).items():
                 if exc_subclass(e.cls, cls):
                     matched = True
                     g = I.as_goal(I.pure_eval(cond, old))
